@@ -8,6 +8,11 @@ if ! PYTHONPATH="$HERE/.deps" "$PY" -c "import hypothesis" 2>/dev/null; then
   mkdir -p "$HERE/.deps"
   "$PY" -m pip install --no-index --find-links /opt/veriftools/wheels --target "$HERE/.deps" hypothesis || exit 1
 fi
+# optional: atheris for the coverage-guided supplement of C01's thorough tier (skipped there if unavailable)
+if ! PYTHONPATH="$HERE/.deps" "$PY" -c "import atheris" 2>/dev/null; then
+  mkdir -p "$HERE/.deps"
+  "$PY" -m pip install --no-index --find-links /opt/veriftools/wheels --target "$HERE/.deps" atheris >/dev/null 2>&1 || echo "note: atheris not installed (C01 thorough supplement will be skipped)"
+fi
 PYTHONPATH="/repo/src:$HERE:$HERE/.deps" "$PY" - <<'PY' || exit 1
 import hypothesis, polars, pydantic, PIL, rtflite
 from vf import refdata
